@@ -65,7 +65,17 @@ def in_function_bodies(lines):
     depth = 0
     body = []
     infunc = False
+    hook = 0
     for i, l in enumerate(lines):
+        # the guarded verification hooks are not part of the library under test
+        if re.match(r"\s*#\s*if", l):
+            if hook or "LIBFIBER_VERIF" in l:
+                hook += 1
+        elif re.match(r"\s*#\s*endif", l) and hook:
+            hook -= 1
+            continue
+        if hook:
+            continue
         code = l.split("//")[0]
         if depth == 0 and "{" in code and ")" in code and not code.strip().startswith(("typedef", "struct", "union", "enum")):
             infunc = True
@@ -142,40 +152,76 @@ def apply(m, dst):
     open(p, "w").write("\n".join(lines))
 
 
-def suite(first=0, last=None):
-    ms = load("mutants.jsonl")
-    done = set(r["id"] for r in load("suite.jsonl"))
-    w = os.path.join(ROOT, "w0")
+def prep_worker(w):
     if not os.path.exists(os.path.join(w, "_b")):
         shutil.rmtree(w, ignore_errors=True)
         os.makedirs(w)
         subprocess.check_call("git -C /repo archive HEAD | tar -x -C %s" % w, shell=True)
         subprocess.check_call("cmake -G Ninja -S . -B _b -DCMAKE_BUILD_TYPE=RelWithDebInfo -DCMAKE_C_FLAGS=-Wno-error "
                               "-DFIBER_RUN_TESTS_WITH_BUILD=OFF >/dev/null 2>&1", shell=True, cwd=w)
+
+
+def suite_one(m, w):
+    """all tests except test_io (fixed TCP port: cannot run in several workers at once), twice"""
+    for d in ("src", "include"):
+        subprocess.check_call("cp -r /repo/%s/. %s/%s/" % (d, w, d), shell=True)
+    apply(m, w)
+    r = subprocess.run("cmake --build _b 2>&1 | tail -3", shell=True, cwd=w, stdout=subprocess.PIPE, stderr=subprocess.STDOUT, timeout=900)
+    if b"FAILED" in r.stdout or b"error" in r.stdout:
+        return "nobuild"
+    for _rep in range(2):
+        t = subprocess.run("ctest --test-dir _b -j4 -E test_io --timeout 20 2>&1 | grep -c '100% tests passed'", shell=True,
+                           cwd=w, stdout=subprocess.PIPE).stdout.decode().strip()
+        if t != "1":
+            return "fail"
+    return "pass-but-io"
+
+
+def suite(jobs=5):
+    import queue, threading, time
+    ms = load("mutants.jsonl")
+    done = set(r["id"] for r in load("suite.jsonl"))
+    todo = [m for m in ms if m["id"] not in done]
     out = open(os.path.join(ROOT, "suite.jsonl"), "a")
-    for k, m in enumerate(ms[first:last]):
-        if m["id"] in done:
-            continue
-        # restore pristine sources, apply
-        for d in ("src", "include"):
-            subprocess.check_call("cp -r /repo/%s/. %s/%s/" % (d, w, d), shell=True)
-        apply(m, w)
-        r = subprocess.run("cmake --build _b 2>&1 | tail -3", shell=True, cwd=w, stdout=subprocess.PIPE, stderr=subprocess.STDOUT,
-                           timeout=600)
-        if b"FAILED" in r.stdout or b"error" in r.stdout:
-            res = "nobuild"
-        else:
-            res = "pass"
-            for _rep in range(2):     # twice: a mutant must slip past the suite reliably
-                t = subprocess.run("ctest --test-dir _b -j8 --timeout 60 2>&1 | grep -E 'tests passed|tests failed' | tail -1", shell=True,
-                                   cwd=w, stdout=subprocess.PIPE, stderr=subprocess.STDOUT)
-                if b"100% tests passed" not in t.stdout:
-                    res = "fail"
-                    break
-        out.write(json.dumps({"id": m["id"], "suite": res}) + "\n")
-        out.flush()
-        print(k + first, m["id"], m["file"], m["line"], m["kind"], res, flush=True)
-    subprocess.call("pkill -f %s/_b/ 2>/dev/null" % w, shell=True)
+    lock = threading.Lock()
+    iolock = threading.Lock()
+    q = queue.Queue()
+    for m in todo:
+        q.put(m)
+
+    def worker(k):
+        w = os.path.join(ROOT, "w%d" % k)
+        prep_worker(w)
+        while True:
+            try:
+                m = q.get_nowait()
+            except queue.Empty:
+                return
+            try:
+                res = suite_one(m, w)
+            except Exception:
+                res = "fail"
+            if res == "pass-but-io":
+                with iolock:             # test_io: one at a time on this machine
+                    ok = False
+                    for _k in range(3):
+                        t2 = subprocess.run("ctest --test-dir _b -R test_io --timeout 30 2>&1 | grep -c '100% tests passed'", shell=True,
+                                            cwd=w, stdout=subprocess.PIPE).stdout.decode().strip()
+                        if t2 == "1":
+                            ok = True
+                            break
+                        time.sleep(2)
+                    res = "pass" if ok else "fail"
+            with lock:
+                out.write(json.dumps({"id": m["id"], "suite": res}) + "\n")
+                out.flush()
+                print(m["id"], m["file"], m["line"], m["kind"], res, flush=True)
+
+    ths = [threading.Thread(target=worker, args=(k,)) for k in range(jobs)]
+    for t in ths:
+        t.start()
+    for t in ths:
+        t.join()
 
 
 def run_check(m, chk):
@@ -246,7 +292,7 @@ if __name__ == "__main__":
     if cmd == "gen":
         gen()
     elif cmd == "suite":
-        suite(int(sys.argv[2]) if len(sys.argv) > 2 else 0, int(sys.argv[3]) if len(sys.argv) > 3 else None)
+        suite(int(sys.argv[2]) if len(sys.argv) > 2 else 5)
     elif cmd == "checks":
         checks(int(sys.argv[2]) if len(sys.argv) > 2 else 3)
     elif cmd == "report":
